@@ -28,7 +28,7 @@ def strategy(tier):
     @st.composite
     def s(draw):
         c, n, tp = draw(gens.cfg(max_dim=128, frames=(1, 120 if tier == "thorough" else 60), allow_twopass=False, lps=(1, 2, 4, 8), presets=(8, 8, 8, 7, 6), tools_p=1,
-                                 allow_rc=False, allow_superres=False))
+                                 allow_rc=False, allow_superres=False, exclude=("AQ1", "GRAIN", "OVL", "SRES", "2PASS")))
         c["recon_enabled"] = draw(st.sampled_from([0, 1]))
         c.pop("speed_control_flag", None)
         cnt = draw(gens.content(kinds=(0, 2, 3, 5)))
